@@ -205,8 +205,33 @@ def replay_contract(c, obligation, cex):
         last["socket_chunking"] = strat
         if last.get("confirmed"):
             break
+    if uses_conn and not (last or {}).get("confirmed"):
+        # the solver's stream may be arbitrary (arithmetic model): also try a well-framed message
+        import copy as _copy
+        framed = bytes.fromhex("4200780100000008") + bytes(8)
+        cex2 = _copy.deepcopy({k: v for k, v in cex.items()})
+        _set_remaining(cex2, framed)
+        for strat in ['one-then-max', 'ones', 'all']:
+            CONNECTION_STRATEGY[0] = strat
+            r2 = _replay_contract(c, obligation, cex2)
+            r2["socket_chunking"] = strat
+            r2["stream_replaced_by_well_framed_message"] = True
+            if r2.get("confirmed"):
+                last = r2
+                break
     CONNECTION_STRATEGY[0] = 'all'
     return last
+
+
+def _set_remaining(v, data):
+    if isinstance(v, dict):
+        if v.get('__class__') == 'vf.envmodel.Connection':
+            v['remaining'] = data
+        for x in v.values():
+            _set_remaining(x, data)
+    elif isinstance(v, (list, tuple)):
+        for x in v:
+            _set_remaining(x, data)
 
 
 def _replay_contract(c, obligation, cex):
